@@ -71,10 +71,21 @@ SetIn(idx, ty, st, n, x, v) ==
   IN IF cur.k = "any" THEN st
      ELSE [st EXCEPT !.val = SetVal(idx, ty, st.val, n, [k |-> "msg", m |-> nm])]
 
+FillIn(idx, ty, st, e) ==
+  LET f == idx[ty].byname[e.f]
+      cur == st.val[e.f]
+      inner == IF cur.k = "msg" THEN cur.m ELSE NormMsg(idx[f.msg].fresh)
+      old == inner[e.x]
+      nv == IF e.op = "appendin" THEN [k |-> "list", xs |-> Append(old.xs, Norm(e.v))]
+            ELSE LET nk == Norm(e.key) IN [k |-> "map", f |-> [y \in (DOMAIN old.f) \cup {nk} |-> IF y = nk THEN Norm(e.v) ELSE old.f[y]]]
+  IN IF cur.k = "any" THEN st
+     ELSE [st EXCEPT !.val = SetVal(idx, ty, st.val, e.f, [k |-> "msg", m |-> [inner EXCEPT ![e.x] = nv]])]
+
 \* whether these conversions succeed on every value is the subject of C04/C05/C09 (JSON) -- here only their purity is judged
 Tolerated == {"todict", "tojson", "topydict", "repr"}
 Rejected == {"parse_bad", "fromdict_bad"}
-Observers == {"get", "getin", "bytes", "len", "bool", "repr", "todict", "tojson", "topydict", "eqself", "observe", "mutcopy"}
+IsPrefixSeq(a, b) == Len(a) <= Len(b) /\ SubSeq(b, 1, Len(a)) = a
+Observers == {"eqother", "get", "getin", "bytes", "len", "bool", "repr", "todict", "tojson", "topydict", "eqself", "observe", "mutcopy"}
 Copiers == {"copy", "deepcopy", "pickle"}
 
 \* expected effect of one logged operation on the abstract state
@@ -91,6 +102,9 @@ Effect(idx, ty, st, e) ==
     [] e.op = "fromdict_inst" -> [st EXCEPT !.val = ApplyKw(idx, ty, st.val, e.kw)]
     \* in-place mutation of the container the attribute read returns:  m.<f>.append(v)  /  m.<f>[key] = v
     [] e.op = "append" -> [st EXCEPT !.val[e.f] = [k |-> "list", xs |-> Append(@.xs, Norm(e.v))]]
+    \* ... and of a container inside a sub-message:  m.<f>.<x>.append(v)  /  m.<f>.<x>[key] = v   (nothing passes through a
+    \* __setattr__; the sub-message now has content, so it is part of the value like one that was assigned to)
+    [] e.op \in {"appendin", "mapsetin"} -> FillIn(idx, ty, st, e)
     [] e.op = "mapset" -> LET nk == Norm(e.key)  nv == Norm(e.v)  old == st.val[e.f].f IN
                           [st EXCEPT !.val[e.f] = [k |-> "map", f |-> [x \in (DOMAIN old) \cup {nk} |-> IF x = nk THEN nv ELSE old[x]]]]
     \* an operation that was *rejected* (malformed bytes / an invalid document given to a live object; the caller caught the
@@ -112,7 +126,7 @@ DiffVal(obs, exp) == { n \in DOMAIN exp : ~(IF exp[n] = Any THEN obs[n].k = "msg
 \* reading an unselected oneof member raises AttributeError; so does reaching into an optional sub-message that is None
 ExpectedRes(idx, ty, st, e) ==
   IF e.op = "get" /\ IsMember(idx, ty, e.f) /\ ~Readable(st, e.f) THEN "AttributeError"
-  ELSE IF e.op \in {"getin", "setin", "selfin"} /\ idx[ty].byname[e.f].card \in {"oneof", "optional"} /\ ~Readable(st, e.f) THEN "AttributeError"
+  ELSE IF e.op \in {"getin", "setin", "selfin", "appendin", "mapsetin"} /\ idx[ty].byname[e.f].card \in {"oneof", "optional"} /\ ~Readable(st, e.f) THEN "AttributeError"
   ELSE "ok"
 
 \* the observation vector e.obs = [val, wire, raises, dictkeys] judged against the state after the operation
@@ -138,9 +152,14 @@ DictJudged(o, op, val) ==
        THEN <<"dict_round_trip_gives_other_value_after_" \o op, { j \in 1..Len(o.dictback) : ~SameVal(NormMsg(o.dictback[j]), val) }>>
   ELSE <<"", "">>
 
+\* a step of a *blind* history: nothing is read from the object after the call (an observation reads every field, and reading
+\* materialises defaults - some behaviour only shows on objects nobody has looked at); only the result is judged, the expected
+\* effect accumulates, and the observation after the last call is judged against all of it
+Blind(e) == "blind" \in DOMAIN e.obs
 Judge(idx, ty, st, e, want, judgeLen) ==
   LET o == e.obs  ov == NormMsg(o.val) IN
-  IF e.res # want /\ e.op \notin Tolerated \cup Rejected
+  IF Blind(e) THEN (IF e.res # want /\ e.op \notin Tolerated THEN Fail(st, "op_" \o e.op \o "_result_" \o e.res, want) ELSE st)
+  ELSE IF e.res # want /\ e.op \notin Tolerated \cup Rejected
   THEN Fail(st, "op_" \o e.op \o "_result_" \o e.res, want)
   ELSE IF o.err # "" THEN Fail(st, "observation_raises_" \o o.err, "")
   ELSE IF ~SameVal(ov, st.val) THEN Fail(st, "observed_value_after_" \o e.op, DiffVal(ov, st.val))
@@ -161,6 +180,8 @@ Judge(idx, ty, st, e, want, judgeLen) ==
          THEN Fail(st, "is_set_of_optional_field_after_" \o e.op,
                    { n \in DOMAIN st.val : idx[ty].byname[n].card = "optional" /\ n \in DOMAIN o.isset /\ o.isset[n] # Readable(st, n) })
     ELSE IF "rteq" \in DOMAIN o /\ ~o.rteq /\ ~MsgHasNaN(ov) THEN Fail(st, "not_equal_to_its_own_reparsed_encoding_after_" \o e.op, "")
+    ELSE IF e.op = "eqother" /\ ~e.samebytes THEN Fail(st, "comparison_changed_the_other_operand", "")
+    ELSE IF e.op = "eqother" /\ ~e.eq /\ ~MsgHasNaN(ov) THEN Fail(st, "comparison_with_a_message_differing_in_one_map_key", "")
     ELSE IF e.op \in Copiers /\ ~e.eq THEN Fail(st, e.op \o "_not_equal_to_original", "")
     ELSE IF e.op \in Copiers /\ ~e.samebytes THEN Fail(st, e.op \o "_bytes_differ_from_original", "")
     ELSE IF judgeLen /\ LenJudged(o, e.op)[1] # "" THEN Fail(st, LenJudged(o, e.op)[1], LenJudged(o, e.op)[2])
@@ -168,7 +189,12 @@ Judge(idx, ty, st, e, want, judgeLen) ==
     ELSE IF "dictback_res" \in DOMAIN o /\ DictJudged(o, e.op, st.val)[1] # "" THEN Fail(st, DictJudged(o, e.op, st.val)[1], DictJudged(o, e.op, st.val)[2])
     ELSE st
 
+\* whatever a rejected parse did or did not take over: what the object had kept of fields it does not know stays (C08)
+LostUnknown(idx, ty, st, e) ==
+  /\ e.op = "parse_bad" /\ ~Blind(e) /\ e.obs.err = ""
+  /\ LET d == SpecDecode(idx, ty, e.obs.wire) IN d.ok /\ ~IsPrefixSeq(st.unk, d.unk)
 Step(idx, ty, st, e, judgeLen) ==
   LET want == ExpectedRes(idx, ty, st, e) IN
+  IF LostUnknown(idx, ty, st, e) THEN Fail(st, "unknown_fields_kept_earlier_are_gone_after_a_rejected_parse", st.unk) ELSE
   Judge(idx, ty, IF want = "ok" THEN Effect(idx, ty, st, e) ELSE st, e, want, judgeLen)
 =============================================================================
